@@ -24,6 +24,19 @@ import torch
 from simkit import core, minimise, repo, runner
 
 
+def as_kind(X, kind):
+	"""Same one-hot values as another dtype / memory layout."""
+	if kind == "int8":
+		return X.to(torch.int8)
+	if kind == "float64":
+		return X.to(torch.float64)
+	if kind == "strided":
+		big = torch.zeros(*X.shape[:-1], X.shape[-1] * 2, dtype=X.dtype)
+		big[..., ::2] = X
+		return big[..., ::2]
+	return X
+
+
 def onehot(idx, A):
 	L = len(idx)
 	X = torch.zeros(A, L, dtype=torch.float32)
@@ -197,7 +210,8 @@ class C02(runner.Check):
 			return {"leg": "rng", "seed": seed, "A": A, "seqs": seqs, "start": s,
 				"end": e, "n": r.wchoice([1, 2, 3, 4], [6, 2, 1, 1]), "strategy": r.wchoice(["uniform",
 				"identity", "reverse", "rotate"], [6, 1, 1, 1]),
-				"rng_seed": S("schedule").subseed(), "random_state": r.randint(0, 10 ** 6)}
+				"rng_seed": S("schedule").subseed(), "random_state": r.randint(0, 10 ** 6),
+				"xkind": r.wchoice(["float32", "int8", "float64", "strided"], [4, 2, 1, 1])}
 		# hist
 		L = r.wchoice([r.randint(4, 40), r.randint(300, 2500)], [12, 1])
 		if L > 40:
@@ -221,6 +235,7 @@ class C02(runner.Check):
 				if kind == "mono" and op["rs"] < 0:
 					op["rs"] = -op["rs"]        # RandomState rejects negative seeds
 				op["seed_type"] = r.wchoice(["int", "numpy.int64", "numpy.int32"], [5, 1, 1])
+				op["xkind"] = r.wchoice(["float32", "int8", "float64", "strided"], [4, 2, 1, 1])
 			elif kind in ("np_seed", "nb_seed", "torch_seed"):
 				op["v"] = r.randint(0, 10 ** 6)
 			elif kind == "threads":
@@ -261,7 +276,8 @@ class C02(runner.Check):
 		out = core.Outcome()
 		log = core.EventLog()
 		A = case["A"]
-		X = torch.stack([onehot(s, A) for s in case["seqs"]])
+		X = as_kind(torch.stack([onehot(s, A) for s in case["seqs"]]),
+			case.get("xkind", "float32"))
 		X0 = X.clone()
 		L = X.shape[-1]
 		s, e, n = case["start"], case["end"], case["n"]
@@ -398,7 +414,7 @@ class C02(runner.Check):
 					for k in perturbed_since:
 						perturbed_since[k] = True
 					continue
-				X = torch.stack([pool[i] for i in op["ex"]])
+				X = as_kind(torch.stack([pool[i] for i in op["ex"]]), op.get("xkind", "float32"))
 				X0 = X.clone()
 				s, e = op["region"]
 				fn = self.ersatz.dinucleotide_shuffle if kind == "dinuc" else \
@@ -425,7 +441,7 @@ class C02(runner.Check):
 					oi, "dinucleotide_shuffle" if kind == "dinuc" else "shuffle", op["ex"],
 					s, e, op["n"], op["rs"], (" as %s" % op.get("seed_type", "int")) +
 					(", other thread" if op.get("thread") else ""))
-				key = (kind, tuple(op["ex"]), s, e, op["n"], op["rs"])
+				key = (kind, tuple(op["ex"]), s, e, op["n"], op["rs"], str(X.dtype))
 				if "exc" in box:
 					ex = box["exc"]
 					if isinstance(ex, ValueError) and "identical" in str(ex):
